@@ -18,7 +18,19 @@ while i < len(args):
     else: i += 1
 cov = out or tempfile.mkdtemp(prefix="vfcov_")
 os.makedirs(cov, exist_ok=True)
-env = dict(os.environ, VERIF_COVER=cov)
+# Go cannot instrument packages that contain overlaid files: work on a scratch copy of the repository's
+# working tree with the harness sources physically copied in.
+import shutil
+src = os.environ.get("VERIF_REPO", "/repo")
+work = tempfile.mkdtemp(prefix="vfcov_repo_")
+subprocess.run(["rsync", "-a", "--exclude", ".git", src + "/", work + "/"], check=True)
+os.makedirs(os.path.join(work, "cmd", "verifdrv"), exist_ok=True)
+for f in glob.glob(os.path.join(HERE, "harness", "drv", "*.go")):
+    shutil.copy(f, os.path.join(work, "cmd", "verifdrv"))
+for d in glob.glob(os.path.join(HERE, "harness", "inpkg", "*")):
+    for f in glob.glob(os.path.join(d, "*.go")):
+        shutil.copy(f, os.path.join(work, os.path.basename(d).replace("__", "/")))
+env = dict(os.environ, VERIF_COVER=cov, VERIF_REPO=work, VERIF_NO_OVERLAY="1")
 if "--noexec" not in args:
     procs = [(c, subprocess.Popen(["bin/check", c], cwd=HERE, env=env, stdout=subprocess.PIPE, stderr=subprocess.STDOUT, text=True)) for c in ids]
     for c, p in procs:
@@ -27,7 +39,7 @@ if "--noexec" not in args:
 goenv = dict(os.environ, GOFLAGS="-mod=mod", GOPROXY="off")
 goenv.pop("GOTOOLCHAIN", None)
 prof = os.path.join(cov, "merged.txt")
-subprocess.run(["go", "tool", "covdata", "textfmt", "-i=" + cov, "-o", prof], cwd=os.environ.get("VERIF_REPO", "/repo"), env=goenv, check=True)
+subprocess.run(["go", "tool", "covdata", "textfmt", "-i=" + cov, "-o", prof], cwd=work, env=goenv, check=True)
 hit = collections.defaultdict(int)
 for f in [prof] + glob.glob(os.path.join(cov, "inpkg_*.prof")):
     for line in open(f):
@@ -52,3 +64,4 @@ for f in sorted(byfile):
     if miss:
         print(f + ": uncovered " + " ".join("%d-%d" % m if m[0] != m[1] else str(m[0]) for m in miss))
 print("coverage data in", cov)
+shutil.rmtree(work, ignore_errors=True)
